@@ -335,6 +335,19 @@ class FakeLoop:
         if t_ms > self.now_ms:
             self.now_ms = t_ms
 
+    def step(self) -> bool:
+        """Fire the next pending timer (whatever its deadline) after draining ready callbacks."""
+        self.run_ready()
+        h = self.next_timer()
+        if h is None:
+            return False
+        self.timers.remove(h)
+        if h.when_ms > self.now_ms:
+            self.now_ms = h.when_ms
+        self._run_one(h)
+        self.run_ready()
+        return True
+
     def advance_by(self, d_ms: Any) -> None:
         self.advance_to(self.now_ms + d_ms)
 
